@@ -67,7 +67,9 @@ class C08(Prop):
                   "stub": ["user data classes, predicates, domains (simulator-owned)"]}
     vacuity = {"quick": ["probe:iter_event_inside_block", "probe:iter_finalised_after_block_left",
                          "probe:raise_through_block", "probe:nested_depth_ge_2", "probe:advance_delivered_inside_block",
-                         "probe:mode_rule_seen", "probe:mode_query_seen", "probe:with_query_block"]}
+                         "probe:mode_rule_seen", "probe:mode_query_seen", "probe:with_query_block",
+                         "probe:iterator_over_rule_or_infer_query", "fault_fired:F3_callback_raise",
+                         "fault_fired:F4_intrinsic_abort"]}
 
     # ------------------------------------------------------------------ generation
     def gen(self, rng, tier, campaign):
@@ -75,9 +77,18 @@ class C08(Prop):
         cfg["vocab"] = sorted(set(cfg["vocab"]) | {"fp"} | ({"cp"} if rng.random() < 0.5 else set()))
         cfg["n_obj"] = min(cfg["n_obj"], 5)
         cfg["depth"] = min(cfg["depth"], 2)
-        world, pool = G.gen_world_and_pool(rng, cfg)
+        if rng.random() < 0.3:
+            # iterators that build instances (rule heads / Add conclusions) while blocks come and go
+            cfg["vocab"] = [v for v in cfg["vocab"] if v not in ("forall", "kw", "nest", "flat")]
+            for _ in range(40):
+                world = G.gen_world(rng, cfg)
+                pool = G.gen_rule_pool(rng, cfg, world)
+                if not G.pool_regions(pool):
+                    break
+        else:
+            world, pool = G.gen_world_and_pool(rng, cfg)
         an_ids = [q["id"] for q in pool["queries"]]
-        if rng.random() < 0.4:
+        if rng.random() < 0.4 and pool["queries"][0]["quant"] != "infer":
             t = copy.deepcopy(pool["queries"][0])
             t["id"] = "t0"
             t["quant"] = "the"
@@ -216,6 +227,8 @@ class C08(Prop):
                                 break
                         outcome = n
                     elif kind == "make":
+                        if run.pool.spec and any(q.get("rule") or q.get("head") for q in plan["pool"]["queries"]):
+                            sim.count("probe:iterator_over_rule_or_infer_query")
                         s = run.start(op[1], op[2])
                         outcome = "made"
                         self._iter_event(sim, frames, left_any_block, s)
